@@ -108,6 +108,215 @@ CLAIMED["C09"] = {
 }
 
 CLAIMED["C12"] = {
+    "technique": "Coq proofs about a heap model of ProcessAllOf (coq/model/AllOf.v: shared nodes, memo set, copy-by-value of children): for EVERY library-accepted environment - rules at schema roots, on nested objects, on array items, inside objects with a rule, in use sites and in base types whose children are copied by value - the run succeeds within the default fuel and every type and use site renders as the pure transitive closure (allof_correct, by a typing of the heap that holds in every intermediate state: a completed node is never written again, a visit only writes nodes of its own or a lower level), nodes without a rule are left unchanged, the result is independent of declaration order, undefined / non-object / non-JSight bases are rejected; tied to the code by unit correspondence (the real exported ProcessAllOf on hand-built catalogs), document correspondence and a bounded exhaustive model-vs-spec search",
+    "text": "15 theorems on the hand model of core/compile_catalog.go ProcessAllOf; the extracted model is compared with the real function on generated catalogs and with the implementation's JSON on generated documents every run.",
+    "note": "Trusted: Coq kernel, extraction + OCaml driver, harness (fn_allof.go builds catalogs through the exported API), lib_ok as the model of what the schema library accepts (validated by the document runs). Partial: whole-run override rejection for projects the library would not accept is decided by the step theorem, examples and the unit correspondence, not by a whole-run proof.",
+    "design_ref": "7 (C12)",
+}
+
+CLAIMED["C05"] = {
+    "technique": "Coq proofs on the scanner table regenerated from scanner/steps*.go: no state distinguishes CR from LF or space from tab (for every configuration and oracle, lifted from a decision over all states), blanks and line ends are inert in the 18 between-directive / before-body states, a comment is opened by saving the interrupted state, read without any event or change but the read position, and its line end is handed to the restored state (line_comment_skipped for comment text of any length); the remaining part of the property (invariance of later stages under the position shift, block comments as a whole, quoting, parentheses) is decided by metamorphic runs: generated API models rendered under random trivia plans and fixtures under text-level rewritings must give the same verdict and byte-identical JSON",
+    "text": "29 theorems: 8 about the step semantics over the translated scanner table, 16 saying that blanks or a whole comment line inserted (or removed) where the scanner is in a shift state only shift the later lexemes (look-back typing of the table checked by computation + a translation relation between runs; at the start of a line the run on the longer input is derived under a stated locality hypothesis on earlier oracle calls) and 5 about the core model (context resolution and macro expansion depend on directive shapes only, so a change of layout cannot change the forest) - partial: see the props file; metamorphic correspondence of the implementation with itself under all listed rewritings on generated and fixture documents every run.",
+    "note": "Trusted: Coq kernel, go2coq (scanner table translator), the document generator/renderer (verifsys/gendoc, self-checked every run), harness. Partial: see the header of coq/props/C05.v for what is proved and what is only explored. Known findings: bare '#' next to a body and block comment + directive on one line after a body (schema library).",
+    "design_ref": "7 (C05)",
+}
+
+CLAIMED["C11"] = {
+    "technique": "Coq proofs over the catalog skeleton model (Catalog.build / Core.expand): the catalog build is a fold of one adder over the pre-order of the expanded forest whose accepted steps only grow a state order (names, ids, URL paths, similar-path bindings, Protocol set, filled singleton slots), so a second directive that meets what the first left behind cannot succeed; 51 theorems: every duplicate kind (type, server, enum, tag, macro, method, JSON-RPC method, URL, similar paths), every second singleton child, every missing required parameter, undefined macro and undefined tag are rejected for all forests, with the exact located diagnostic under 'no earlier fault'; tied to the code by skeleton/diagnostic correspondence on fault-injected documents (direct, through PASTE, through INCLUDE) and by the span check on the implementation's diagnostic",
+    "text": "51 theorems for all forests on coq/model/Catalog.v and Core.v; every fault kind is injected at every slot of 13 base documents by three routes and the implementation must reject inside the span of the injected directive; the extracted model must give the same file, index, line and message class.",
+    "note": "Trusted: Coq kernel, extraction + OCaml driver, harness. Undefined TYPE/ENUM references sit inside schema text and are decided by the schema library (oracle), not by the model. Known findings: nameless TYPE diagnosed elsewhere, Body under an inline schema located at the parent, paste-time diagnostics located at the outer PASTE.",
+    "design_ref": "7 (C11)",
+}
+
+CLAIMED["C04"] = {
+    "technique": "Coq proofs over the catalog skeleton model: for every accepted expanded forest the key lists of the catalog are exactly the declaring directives in pre-order (servers, types, enums with a body, declared tags first then automatic tags in order of first use, interactions = the ids made by the method directives, each made by exactly one directive), each interaction's annotation, description, query, request presence, response codes in order, params/result are the fold of the content directives that resolve to it, info/jsight come from their directives (catalog_keys, every_method_makes_an_interaction, content_faithful, info_faithful); tied to the code by skeleton correspondence, and decided on the implementation by model-first generation: abstract API models are generated first, the expected catalog is computed from the MODEL (gendoc.expect.catalog_of) and compared with the skeleton of the implementation's JSON",
+    "text": "12 theorems for all forests on coq/model/Catalog.v (incl. full_content_faithful: provenance of request/response bodies and headers; INFO and TAG descriptions); generated API models: every rendering must be accepted and its JSON skeleton must equal the expectation computed from the abstract model; the extracted Coq model is run on the same documents.",
+    "note": "Trusted: Coq kernel, extraction + OCaml driver, harness, the generator's expectation function (self-checked by round trips every run). Schema CONTENT (the children of a schema) is the schema library's; the skeleton carries notation, format, type references. Partial: provenance of request/response bodies and headers, INFO/TAG descriptions are not traced by a theorem (format by C09).",
+    "design_ref": "7 (C04)",
+}
+
+CLAIMED["C10"] = {
+    "technique": "Coq proofs: the name-collecting passes (enums, tags, duplicate types) give the same verdict and permuted results under any permutation of the forest (closed-form criterion), the catalog fold over declaration directives (SERVER/TYPE/TAG/ENUM) is order free up to the order of the entries, allOf inheritance renders every type identically under any permutation of the TYPE directives (heap model), the macro recursion check's verdict is a property of the paste graph; the refuted part (usedUserTypes lists) is a witness theorem and a recorded finding; the rest of the property (URL/method trees, path variables, whole pipeline) is decided by metamorphic runs: generated API models rendered in a random permutation of their top-level blocks, also after macro-ization, must give the same verdict, equal entries and the permuted order",
+    "text": "15 theorems (9 partial by name) on the catalog, allOf and macro models + metamorphic correspondence of the implementation with itself under permutation on generated documents every run.",
+    "note": "Trusted: Coq kernel, the document generator and its permutation/expectation functions (self-checked), harness. Partial: see the header of coq/props/C10.v. Known finding: usedUserTypes of allOf chains depend on the declaration order (fixtures pin one order).",
+    "design_ref": "7 (C10)",
+}
+
+CLAIMED["C20"] = {
+    "technique": "Coq proofs over the catalog skeleton model and the macro model: a fresh SERVER or TYPE appended to an accepted forest is accepted iff its name is new and yields the old catalog plus exactly that entry (both directions), a fresh root-level HTTP method appended yields the old catalog plus the interaction and its automatic tag, an unused macro is inert (C07 unused_macro_inert); insertion at arbitrary positions and removal are decided by metamorphic runs: generated API models with one fresh declaration of a random kind at a random insertion point, one removal of an unreferenced declaration, one unused macro - every other catalog entry must stay byte-identical",
+    "text": "17 theorems (2 partial by name) on coq/model/Catalog.v: a fresh SERVER / TYPE / ENUM / TAG inserted at ANY top-level position (equivalences: read right to left they are removal of an unreferenced declaration), HTTP method and TAG at the end position + metamorphic correspondence of the implementation with itself on generated documents every run.",
+    "note": "Trusted: Coq kernel, the document generator's add/remove transformations (self-checked), harness. Partial: arbitrary insertion positions of methods and the TAG case (a new TAG captures the automatic tag of the same name, so it is not inert in general) are explored, not proved.",
+    "design_ref": "7 (C20)",
+}
+
+def counted(pid, text):
+    """the leading 'N theorems' (and '(K partial by name)') of a text are counted from coq/props/<pid>.v"""
+    import re
+    src = open(os.path.join(os.path.dirname(os.path.abspath(__file__)), "coq", "props", pid + ".v")).read()
+    names = re.findall(r"^Theorem\s+(\w+)", src, re.M)
+    text = re.sub(r"^\d+ theorems", "%d theorems" % len(names), text)
+    text = re.sub(r"\(\d+ partial by name\)", "(%d partial by name)" % sum(1 for n in names if "partial" in n), text)
+    return text
+
+
+def main():
+    checks = []
+    for pid in ALL:
+        if pid not in CLAIMED:
+            continue
+        c = CLAIMED[pid]
+        checks.append({
+            "property_id": pid,
+            "quick_cmd": "./check %s --tier quick" % pid,
+            "thorough_cmd": "./check %s --tier thorough" % pid,
+            "evidence_file": "/verif/evidence/%s.json" % pid,
+            "replay_cmd_template": "./check %s --replay {path}" % pid,
+            "engine": "coq",
+            "level_claimed": {"category": "proof", "text": counted(pid, c["text"]), "design_ref": c["design_ref"]},
+            "level_note": c["note"],
+            "technique": c["technique"],
+        })
+    na = []
+    for pid in ALL:
+        if pid not in CLAIMED:
+            na.append({"property_id": pid, "reason": NOT_YET.get(pid, "check not built yet in this round (machine-checked proof is applicable; see DESIGN.md section 7)")})
+    m = {
+        "version": 1,
+        "setup_cmd": "./setup.sh",
+        "hooks": {
+            "guard": "verif",
+            "enable": "go build -tags verif (the harness module in /verif/harness replaces the library by /repo)",
+            "baseline_off_cmd": "cd /repo && GOFLAGS=-mod=mod GOPROXY=off GOSUMDB=off GOTOOLCHAIN=local go test -json -vet=off -count=1 -timeout 25m ./...",
+            "source_commits": json.load(open(os.path.join(HERE, "hook_commits.json"))),
+            "add_only": True,
+        },
+        "engines": [{
+            "name": "coq",
+            "path": "/verif/coq",
+            "serves_properties": sorted(CLAIMED),
+            "kind_free_text": "Coq 8.16.1 development: models regenerated from /repo by /verif/go2coq (coq/gen) + hand-written models (coq/model) tied by an extracted-OCaml correspondence run against the Go harness (/verif/harness)",
+        }],
+        "checks": checks,
+        "not_applicable": na,
+        "notes": "All checks are ./check <ID>; see DESIGN.md. known_findings.json lists recorded findings and fixed defects.",
+    }
+    with open(os.path.join(HERE, "MANIFEST.json"), "w") as f:
+        json.dump(m, f, indent=1)
+        f.write("\n")
+
+
+if __name__ == "__main__":
+    main()
+#!/usr/bin/env python3
+"""Writes /verif/MANIFEST.json from the table below (kept in one place so that it is
+always valid against /root/.vp/MANIFEST.schema.json)."""
+import json
+import os
+
+HERE = os.path.dirname(os.path.abspath(__file__))
+
+CLAIMED = {
+    "C08": {
+        "technique": "Coq proof over the include-name validator regenerated from core/include.go by go2coq (include_name_safe, join_confined) + exhaustive model/implementation correspondence of the validator and of the filepath model",
+        "text": "Theorems for all byte strings on the validator as translated from the current source, plus a proved model of filepath.Join/Dir; the tie to the code is the translator (re-run on every check) and an exhaustive differential run over short names.",
+        "note": "Trusted: Coq kernel, go2coq, extraction + OCaml driver, hand model of filepath.Clean/Join/Dir (validated against the real functions every run). OS path semantics (symlinks) are outside the model.",
+        "design_ref": "7 (C08)",
+    },
+}
+
+CLAIMED["C19"] = {
+    "technique": "Coq proof of injectivity (by a decoder) of the automatic tag-name function regenerated from catalog/tag_name.go, proof of the first-segment rule on a hand model of pathTagTitle, exhaustive model/implementation correspondence",
+    "text": "tagName is translated from the current source on every run and proved injective on all titles '/'+segment; pathTagTitle is a hand model compared exhaustively with the implementation over short paths and all single bytes.",
+    "note": "Trusted: Coq kernel, go2coq, extraction + OCaml driver, model of url.PathEscape (validated against the real function every run). Document-level tag assignment is decided by the core-model correspondence (see DESIGN 7, C19).",
+    "design_ref": "7 (C19)",
+}
+
+CLAIMED["C17"] = {
+    "technique": "Coq proofs about a hand model of unescapeParameter / AppendParameter and of the scanner's quoted-parameter states (unescape_quote for all byte strings, accepted_iff_quote, rejection positions), tied to the code by exhaustive extracted-model vs implementation correspondence and by the regenerated scanner table",
+    "text": "Round-trip of quoted parameters is proved for every byte string on the model; the model is compared with directive.unescapeParameter, AppendParameter and the real scanner on all strings over a 12-byte alphabet up to the length bound.",
+    "note": "Trusted: Coq kernel, extraction + OCaml driver, harness. Hand model (coq/model/Params.v) is tied by correspondence only.",
+    "design_ref": "7 (C17)",
+}
+CLAIMED["C02"] = {
+    "technique": "Coq proofs about a hand model of the jerr location arithmetic (totality on index <= len, line/line-beginning/line-end/quote specifications, no unsigned wrap), exhaustive extracted-model vs implementation correspondence; on the core model: every scan-stage diagnostic names an opened project file and an index inside it, every include-trace entry names a project file and an offset where INCLUDE really stands, the trace is exactly the scanner-stack chain when no file has two INCLUDEs (refuted otherwise: the recorded finding); project stage with computed expectations (include chains, type chains, path-property faults)",
+    "text": "25 theorems. For every content and every index within the file the model never panics and line/quote agree with the index; 10 theorems on diagnostics and include traces of the core model; model and jerr.NewLocation are compared on all contents over {a,space,tab,CR,LF} up to the bound at every index.",
+    "note": "Trusted: Coq kernel, extraction + OCaml driver, harness. Known finding: stale include-tracer cache (trace line of the first INCLUDE of the same includer).",
+    "design_ref": "7 (C02)",
+}
+CLAIMED["C13"] = {
+    "technique": "Coq proofs about a hand model of pathParameters / PathParameters / checkSimilarPaths (totality, specification, distinct prefixes, exact rejection conditions, order independence), exhaustive extracted-model vs implementation correspondence",
+    "text": "String-level path-parameter extraction and the similar-path check are proved against independent specifications for all byte strings and all path lists; compared with core.PathParameters over {/,{,},a,b} up to the bound.",
+    "note": "Trusted: Coq kernel, extraction + OCaml driver, harness. Binding of properties to interactions is decided by the core-model correspondence (DESIGN 7, C13).",
+    "design_ref": "7 (C13)",
+}
+
+CLAIMED["C16"] = {
+    "technique": "Coq proofs about an ordered-map model for all operation sequences (om_invariant, no_lost_update, marshal_each_key_once, first_insertion_order) + lock-discipline obligation locks_ok discharged by computation on the collection method bodies regenerated from catalog/*_gen.go and directive/directives_gen.go; race-detector stress runs are labelled exploration in the evidence",
+    "text": "Partial by nature: every method is proved atomic-under-lock (regenerated lock facts) and the sequential semantics is proved for all operation sequences, i.e. all linearisations; data races, the Go memory model and the schema library are explored with -race stress runs, not proved.",
+    "note": "Trusted: Coq kernel, go2coq (method-body normal forms), extraction, harness. Not modelled: sync.RWMutex, Go memory model, schema library internals. Known finding: concurrent parses corrupt schema example strings (pooled buffer in the schema library).",
+    "design_ref": "7 (C16)",
+}
+
+CLAIMED["C15"] = {
+    "technique": "Coq proofs about a hand model of core.description and catalog.Annotation (no CR, trimmed, exact fixed-point characterisation desc_fixed_iff, bare = parenthesised, annotation collapsed/idempotent; idempotence and dedent refuted by computed witnesses and proved under the exact guard), exhaustive extracted-model vs implementation correspondence",
+    "text": "The normalisers are modelled byte for byte (including bytes.TrimSpace on UTF-8 white space) and compared exhaustively over an 8-byte alphabet; every statement of the property is a theorem, or a _refuted theorem with the counterexample class listed as a known finding plus a _partial theorem under the exact guard.",
+    "note": "Trusted: Coq kernel, extraction + OCaml driver, harness. The scanner's delimitation of the text lexeme is covered by the scanner table theorems and the lexeme-stream correspondence (C14).",
+    "design_ref": "7 (C15)",
+}
+
+CLAIMED["C14"] = {
+    "technique": "Coq metatheory proved once for any scanner table (stack discipline, begin/end pairing, found/foundAt offsets, rewinds, termination potential) + finite obligation table_ok discharged by vm_compute on the 160 step functions regenerated from scanner/*.go by go2coq; lexeme-stream correspondence of the extracted scanner model against scanner.NewJApiScanner().Next()",
+    "text": "lexemes_in_bounds_and_ordered and no_content_dropped (every byte outside the lexemes was consumed in a state that may skip it: blanks, line ends, comment text, annotation delimiters - two further checkers trivia_ok and pend_ok decided on the regenerated table + their own metatheory; no side condition), keywords_spelled (the bytes of every Keyword lexeme are a keyword of the regenerated directive table or a response code in range: a fourth checker spell_ok + metatheory) hold for every byte string and every len-sane schema library; keyword spelling and body = one library value are decided by the executable statement on the implementation's streams (token-alphabet enumeration, every prefix of every body token in every body-reading state, fixture prefixes, mutations) with the model agreeing lexeme for lexeme.",
+    "note": "Trusted: Coq kernel + vm_compute, go2coq (step functions -> decision trees), the hand-written driver model coq/model/ScannerSem.v (tied by correspondence), extraction, harness, the schema library as Len() oracle (hypothesis len_sane). The typing inference is untrusted (only checked).",
+    "design_ref": "5.2, 7 (C14)",
+}
+CLAIMED["C01"] = {
+    "technique": "Coq theorems scan_total (no empty-stack Pop, no underflow, no out-of-range index/slice, bounded re-dispatch, termination by a potential function) for the regenerated scanner table and pipeline_total (context resolution, macro expansion and the catalog build of the core/catalog models end in a catalog or a diagnostic for every item sequence: no panic site is reachable on admissible forests, expansion preserves admissibility); crash/hang search of the whole pipeline in isolated subprocesses with the model-predicted hostile shapes (include graphs, macro graphs, deep nesting)",
+    "text": "6 theorems: the scanner half for all byte strings, the core/catalog half for all item sequences on the hand models (tied by correspondence); the implementation itself is run in subprocesses that observe panics, fatal stack overflows, hangs and runtime faults reported as diagnostics.",
+    "note": "Trusted: as C14; Go runtime stack limits and the schema library's own totality are observed, not proved. Known finding: exponential macro expansion (not prompt).",
+    "design_ref": "7 (C01)",
+}
+
+CLAIMED["C03"] = {
+    "technique": "Coq proof that the inventory (map ranges, goroutines/time/rand/env/reflect/unsafe uses, package-level variables and writes, recover sites) REGENERATED from the current source by go2coq equals the audited list, plus an order-irrelevance theorem for every permutation at each audited map-range site/class; exact comparison of repeated fresh-process, in-process and concurrent runs",
+    "text": "Everything but map iteration is deterministic by construction of the code (no time/rand/goroutine sources: proved on the regenerated inventory); each remaining map range is proved order-irrelevant for all permutations. The repeated-run comparison validates the inventory's scope and explores the schema library and encoding/json.",
+    "note": "Trusted: Coq kernel, go2coq inventory (go/types), harness. Observed, not proved: determinism of the schema library, encoding/json, reggen. Known finding: concurrent example corruption.",
+    "design_ref": "7 (C03)",
+}
+CLAIMED["C06"] = {
+    "technique": "Coq theorems about the context zipper of the hand model coq/model/Core.v over the admissibility tables regenerated from directive/enumeration.go (pre-order preservation, admissibility of every edge, nearest admitting parent, rejection conditions; resolution and macro expansion are functions of the SHAPES of the directives - kinds, parameters, explicit flags - never of coordinates: context_ignores_coordinates, expansion_ignores_coordinates); exhaustive/ random directive-kind sequences compared as forests with the implementation after scanning and after paste expansion",
+    "text": "The model of processContext / closeLastExplicitContext / processEOF is compared with the real directive forests (kind, parent, order, explicit flag, coordinates, trace) on all kind sequences to the length bound; the theorems quantify over all item sequences.",
+    "note": "Trusted: Coq kernel, go2coq (tables), extraction, harness (verif-tagged accessors to the directive lists). The hand model is tied by correspondence only.",
+    "design_ref": "7 (C06)",
+}
+CLAIMED["C18"] = {
+    "technique": "Coq theorems on the core model with the ban set as a parameter (every directive is created through the ban test; with INCLUDE banned the result is independent of the file system; without a banned kind the result equals the result without the option) + correspondence of the model with the implementation under ban sets and direct checks of the diagnostic location",
+    "text": "All 30 singletons and sampled sets on a reference document containing every kind directly, in macros, via PASTE and via INCLUDE; non-interference of the file system when INCLUDE is banned is observed by varying the named file.",
+    "note": "Trusted: Coq kernel, extraction, harness. Hand model tied by correspondence.",
+    "design_ref": "7 (C18)",
+}
+
+NOT_YET = {
+}
+
+ALL = ["C%02d" % i for i in range(1, 21)]
+
+
+CLAIMED["C07"] = {
+    "technique": "Coq proofs about the macro stage of the core model (Core.expand): the recursion check is a complete cycle detector on the paste graph for every macro table (cycle_rejected, acyclic_accepted, has_cycle_complete), terminates within the fuel expand passes, expansion terminates, expansion equals expansion of the inlined forest (paste_is_inlining), an unused macro is inert, duplicates and undefined names are rejected at the stated directive; tied to the code by extracted-model vs implementation correspondence at the expand stage and by metamorphic runs (document vs textually inlined document, full pipeline)",
+    "text": "20 theorems for all forests / macro tables on the hand model coq/model/Core.v; the model is compared with the implementation's expanded forest on generated documents every run, and the catalog of each accepted document is compared with the catalog of its textual inlining.",
+    "note": "Trusted: Coq kernel, extraction + OCaml driver, harness, the generator's textual inliner. Theorems speak of directive forests; the step from tree-level to textual inlining is covered by the metamorphic run, not by proof. Known finding: order of userEnums.",
+    "design_ref": "7 (C07)",
+}
+
+CLAIMED["C09"] = {
+    "technique": "Coq proofs over the catalog skeleton model (Catalog.build): for every accepted forest the collections have unique keys, every interaction key equals its id string and encodes protocol/method/path, tags and interactions reference each other mutually, every request/response has a body whose format matches its notation, Title() = info.title (invariant cat_inv carried through the pre-order fold of add_directive); id-string injectivity proved for HTTP and for JSON-RPC without spaces, refuted with a witness otherwise; tied to the code by skeleton correspondence (extracted model vs implementation JSON) and by an executable statement evaluated on the implementation's JSON",
+    "text": "12 theorems for all forests on the hand model coq/model/Catalog.v (schemas are opaque descriptors); the model's skeleton is compared with the implementation's JSON on fixtures and generated documents every run, and every clause of the property is evaluated on the implementation's compact and indented JSON.",
+    "note": "Trusted: Coq kernel, extraction + OCaml driver, harness, skeleton projection (verifsys/skeleton.py). JSON text level (encoding/json escaping, UTF-8 coercion) is outside the model: decided by the executable statement only. Known findings: JSON-RPC id collision, invalid-UTF-8 key collapse.",
+    "design_ref": "7 (C09)",
+}
+
+CLAIMED["C12"] = {
     "technique": "Coq proofs about a heap model of ProcessAllOf (coq/model/AllOf.v: shared nodes, memo set, copy-by-value of children): for every library-accepted environment with allOf at schema roots the run succeeds within the default fuel and every type and use site renders as the pure transitive closure (allof_correct_rootlevel), bases are left unchanged, the result is independent of declaration order, undefined / non-object / non-JSight bases are rejected; nested cases by exhaustive model-vs-spec search; tied to the code by unit correspondence (the real exported ProcessAllOf on hand-built catalogs) and document correspondence",
     "text": "15 theorems on the hand model of core/compile_catalog.go ProcessAllOf; the extracted model is compared with the real function on generated catalogs and with the implementation's JSON on generated documents every run.",
     "note": "Trusted: Coq kernel, extraction + OCaml driver, harness (fn_allof.go builds catalogs through the exported API), lib_ok as the model of what the schema library accepts (validated by the document runs). Partial: allOf below nested objects and whole-run override rejection are decided by exhaustive search and examples, not by proof.",
